@@ -28,7 +28,7 @@ FUNCTIONS = [
     "nessai.model.Model.evaluate_log_likelihood",
 ]
 BOUNDS = {
-    "quick": dict(batch_n="0..4", chunksize="None or any integer in [1, n+1] (symbolic)", n_pool="any integer in [1,4] (symbolic)", pool=["none", "order-preserving map"], vectorised=[True, False], returns=["scalar", "length-1 array"]),
+    "quick": dict(batch_n="0..4", chunksize="None or any integer in [1, n+1] (symbolic)", n_pool="any integer in [1,4] (symbolic)", pool=["none", "order-preserving map"], vectorised=[True, False], returns=["scalar", "length-1 array"], vectorisation_check="3 points; vectorised / array-rejecting / wrong-row / pointwise + symbolic delta"),
     "thorough": dict(batch_n="0..8 and 11", chunksize="None or any integer in [1, n+1] (symbolic)", n_pool="any integer in [1,4] (symbolic)", pool=["none", "order-preserving map"], vectorised=[True, False], returns=["scalar", "length-1 array"]),
 }
 SCOPE = "The user's likelihood / prior is an uninterpreted function of the (symbolic) point, so 'same value, same order' is decided for every function and every point."
